@@ -116,8 +116,28 @@ def lock_half(ctx):
             ctx.notes["binding_selftest"] = "trace with a dropped lock event rejected"
 
 
+def lock_proof(ctx):
+    """TLAPS: the discipline of H5Lock.tla is safe for ANY number of callers and calls (inductive invariant)."""
+    import subprocess, tempfile
+    wd = tempfile.mkdtemp(prefix="tlaps-", dir=ctx.scratch)
+    for fn in ("H5Lock.tla", "H5LockProof.tla"):
+        shutil.copy(os.path.join(os.path.dirname(os.path.dirname(os.path.dirname(os.path.abspath(__file__)))), "spec", fn), wd)
+    try:
+        r = subprocess.run(["tlapm", "--threads", "8", "H5LockProof.tla"], cwd=wd, capture_output=True, text=True, timeout=900)
+    except (subprocess.TimeoutExpired, FileNotFoundError) as e:
+        raise Infra("tlapm did not run: %s" % e)
+    text = (r.stdout or "") + (r.stderr or "")
+    import re
+    m = re.search(r"All (\d+) obligations? proved", text)
+    if r.returncode != 0 or not m:
+        raise Infra("TLAPS did not prove H5LockProof.tla:\n" + text[-2000:])
+    ctx.notes["tlaps"] = {"module": "H5LockProof.tla", "obligations_proved": int(m.group(1)),
+                          "theorem": "Spec => [](NoWriteOverlap /\\ CallsUnderLock /\\ WriterExclusive) for any Callers and MaxCalls"}
+
+
 def run(ctx):
     store_half(ctx)
+    lock_proof(ctx)
     lock_half(ctx)
     ctx.assumptions += ["S1: the HDF5 library is harness/fakehdf5 (pure Go, documented H5S_SELECT_SET hyperslab semantics); fidelity to libhdf5 is assumed",
                         "selections with at least one selected index per dimension (start < extent); stop may exceed the extent",
